@@ -80,19 +80,19 @@ func errTypeNames(c *Ctx) map[string]string {
 func buildErrModel(c *Ctx) *errModel {
 	return c.Memo("errModel", func() interface{} {
 		m := &errModel{Ctors: map[*ssa.Function]bool{}, Handlers: map[*ssa.Function]*handlerInfo{}, TypeNames: errTypeNames(c)}
-		// constructors: exported functions of package errors returning error built from a fresh *ValidationError
+		// constructors: exported functions of package errors whose every return is a fresh *ValidationError — allocated in
+		// place, or by a function of the package all of whose returns are fresh allocations (a shared maker)
 		ep := c.P.SSAPkg["errors"]
 		for _, mem := range ep.Members {
 			f, ok := mem.(*ssa.Function)
-			if !ok || len(f.Blocks) == 0 {
+			if !ok || len(f.Blocks) == 0 || f.Object() == nil || !f.Object().Exported() {
 				continue
 			}
-			for _, b := range f.Blocks {
-				for _, ins := range b.Instrs {
-					if a, ok := ins.(*ssa.Alloc); ok && a.Heap && namedOf(a.Type()) == "ValidationError" {
-						m.Ctors[f] = true
-					}
-				}
+			if f.Signature.Results().Len() != 1 || !types.Identical(f.Signature.Results().At(0).Type(), types.Universe.Lookup("error").Type()) {
+				continue
+			}
+			if _, ok := ctorAlloc(f); ok {
+				m.Ctors[f] = true
 			}
 		}
 		// handlers: functions of package url that call a constructor
@@ -136,53 +136,30 @@ func buildErrModel(c *Ctx) *errModel {
 				}
 			}
 		}
-		// a shared core: the handler's only return hands (u, e, failure) to one module function and returns its answer
+		// helpers of the handlers: unexported functions of the package that are called (transitively) by handlers only —
+		// a shared core (`return p.report(u, e, failure)`), a recording helper, a predicate on the options. ERR-shape reads
+		// the handlers with these inlined; ERR-ni counts them as part of the handlers.
 		m.Cores = map[*ssa.Function]bool{}
-		for _, h := range m.Handlers {
-			var rets []*ssa.Return
-			for _, b := range h.Fn.Blocks {
-				if r, ok := b.Instrs[len(b.Instrs)-1].(*ssa.Return); ok {
-					rets = append(rets, r)
-				}
-			}
-			if len(rets) != 1 || len(rets[0].Results) != 1 {
-				continue
-			}
-			call, ok := rets[0].Results[0].(*ssa.Call)
-			if !ok || call == h.CtorCall {
-				continue
-			}
-			g := call.Common().StaticCallee()
-			if g == nil || !c.P.InModule(g) || len(g.Blocks) == 0 || m.Handlers[g] != nil {
-				continue
-			}
-			ui, ei, fi := -1, -1, -1
-			for i, a := range call.Common().Args {
-				switch a {
-				case ssa.Value(h.Fn.Params[h.UrlIdx]):
-					ui = i
-				case ssa.Value(h.CtorCall):
-					ei = i
-				case ssa.Value(h.Fn.Params[h.FailIdx]):
-					fi = i
-				}
-			}
-			if ui < 0 || ei < 0 || fi < 0 {
-				continue
-			}
-			h.Core, h.CoreCall, h.CoreUrlIdx, h.CoreErrIdx, h.CoreFailIdx = g, call, ui, ei, fi
-			m.Cores[g] = true
-		}
-		// a core is private to the handlers
-		if len(m.Cores) > 0 {
+		{
 			ix := sitesOf(c)
-			for g := range m.Cores {
-				if ix.taken[g] {
-					m.Problems = append(m.Problems, core.FuncName(g)+" (shared part of the error handlers) is used as a value")
-				}
-				for _, cs := range ix.sites[g] {
-					if m.Handlers[cs.Fn] == nil {
-						m.Problems = append(m.Problems, fmt.Sprintf("%s (shared part of the error handlers) is also called from %s", core.FuncName(g), core.FuncName(cs.Fn)))
+			for changed := true; changed; {
+				changed = false
+				for _, g := range c.P.ModFns {
+					if m.Cores[g] || m.Handlers[g] != nil || m.Ctors[g] || g.Parent() != nil || len(g.Blocks) == 0 || core.PkgPathOf(g) != core.ModPath+"/url" {
+						continue
+					}
+					if g.Object() == nil || g.Object().Exported() || ix.taken[g] || len(ix.sites[g]) == 0 {
+						continue
+					}
+					all := true
+					for _, cs := range ix.sites[g] {
+						if m.Handlers[cs.Fn] == nil && !m.Cores[cs.Fn] {
+							all = false
+						}
+					}
+					if all {
+						m.Cores[g] = true
+						changed = true
 					}
 				}
 			}
@@ -224,6 +201,117 @@ func buildErrModel(c *Ctx) *errModel {
 	}).(*errModel)
 }
 
+// freshVE: v is a freshly allocated *ValidationError: the allocation itself, or the result of a module function all of
+// whose returns are such. Returns the allocation and, when it was made by a maker function, the call to it.
+func freshVE(v ssa.Value, depth int) (*ssa.Alloc, *ssa.Call, bool) {
+	switch x := v.(type) {
+	case *ssa.Alloc:
+		if x.Heap && namedOf(x.Type()) == "ValidationError" {
+			return x, nil, true
+		}
+	case *ssa.Call:
+		g := x.Common().StaticCallee()
+		if g == nil || len(g.Blocks) == 0 || depth > 1 {
+			return nil, nil, false
+		}
+		var al *ssa.Alloc
+		n := 0
+		for _, b := range g.Blocks {
+			r, ok := b.Instrs[len(b.Instrs)-1].(*ssa.Return)
+			if !ok {
+				continue
+			}
+			n++
+			if len(r.Results) != 1 {
+				return nil, nil, false
+			}
+			a, _, ok := freshVE(r.Results[0], depth+1)
+			if !ok {
+				return nil, nil, false
+			}
+			al = a
+		}
+		if n == 0 {
+			return nil, nil, false
+		}
+		return al, x, true
+	}
+	return nil, nil, false
+}
+
+// ctorAlloc: every return of f is error(fresh *ValidationError); returns the allocation (and maker call) of one of them.
+type ctorInfo struct {
+	Alloc *ssa.Alloc
+	Maker *ssa.Call
+}
+
+func ctorAlloc(f *ssa.Function) (ctorInfo, bool) {
+	var ci ctorInfo
+	n := 0
+	for _, b := range f.Blocks {
+		r, ok := b.Instrs[len(b.Instrs)-1].(*ssa.Return)
+		if !ok {
+			continue
+		}
+		n++
+		if len(r.Results) != 1 {
+			return ci, false
+		}
+		mi, ok := r.Results[0].(*ssa.MakeInterface)
+		if !ok {
+			return ci, false
+		}
+		a, mk, ok := freshVE(mi.X, 0)
+		if !ok {
+			return ci, false
+		}
+		ci = ctorInfo{a, mk}
+	}
+	return ci, n > 0
+}
+
+// ctorFieldSources: for a constructor, which of its own parameters ends up in which field of the error (through the
+// maker function when there is one).
+func ctorFieldSources(f *ssa.Function) map[string]string {
+	ci, ok := ctorAlloc(f)
+	if !ok {
+		return nil
+	}
+	stored := map[string]ssa.Value{}
+	for _, r := range *ci.Alloc.Referrers() {
+		fa, ok := r.(*ssa.FieldAddr)
+		if !ok {
+			continue
+		}
+		fld := strings.TrimPrefix(fieldElem(fa.X.Type(), fa.Field), "ValidationError:")
+		for _, r2 := range *fa.Referrers() {
+			if st, ok := r2.(*ssa.Store); ok && st.Addr == ssa.Value(fa) {
+				stored[fld] = st.Val
+			}
+		}
+	}
+	out := map[string]string{}
+	for fld, v := range stored {
+		if ci.Maker != nil {
+			// v is a value of the maker: a parameter of it stands for the argument at the call
+			if p, ok := v.(*ssa.Parameter); ok {
+				g := ci.Maker.Common().StaticCallee()
+				for i, q := range g.Params {
+					if q == p && i < len(ci.Maker.Common().Args) {
+						v = ci.Maker.Common().Args[i]
+					}
+				}
+			}
+		}
+		if p, ok := v.(*ssa.Parameter); ok && p.Parent() == f {
+			out[fld] = p.Name()
+		} else {
+			out[fld] = "<" + v.String() + ">"
+		}
+	}
+	return out
+}
+
 // onlyCalledFrom: an unexported method that is never used as a value and whose every caller is one of the listed
 // methods of the same type (or, one level up, such a helper again).
 func onlyCalledFrom(c *Ctx, f *ssa.Function, listed map[string]bool, depth int) bool {
@@ -248,6 +336,10 @@ func onlyCalledFrom(c *Ctx, f *ssa.Function, listed map[string]bool, depth int) 
 
 // appendsExactly: append(s, v) with exactly the one element v.
 func appendsExactly(call *ssa.Call, v ssa.Value) bool {
+	return appendsExactlyR(call, v, func(x ssa.Value) ssa.Value { return x })
+}
+
+func appendsExactlyR(call *ssa.Call, v ssa.Value, resolve func(ssa.Value) ssa.Value) bool {
 	if len(call.Common().Args) != 2 {
 		return false
 	}
@@ -272,7 +364,7 @@ func appendsExactly(call *ssa.Call, v ssa.Value) bool {
 		for _, r2 := range *ia.Referrers() {
 			if st, ok := r2.(*ssa.Store); ok {
 				stores++
-				if st.Val == v {
+				if resolve(st.Val) == v {
 					good = true
 				}
 			}
@@ -402,9 +494,11 @@ func init() {
 				}
 				s.Check(len(bad) == 0, key+"/wiring", pos, "constructor receives errorType, u.inputUrl, failure (descr/cause) unchanged", strings.Join(bad, "; "))
 
-				// (2) truth table
-				bodyFn, urlVal, eVal, failVal := h.body()
-				paths, ok := enumPaths(bodyFn, 64)
+				// (2) truth table, read off the handler with its unexported helpers inlined (the decision may be spread over a
+				// shared core, a recording helper and a predicate on the options)
+				urlVal, eVal, failVal := ssa.Value(h.Fn.Params[h.UrlIdx]), ssa.Value(h.CtorCall), ssa.Value(h.Fn.Params[h.FailIdx])
+				fg := flatten(c, h.Fn, func(g *ssa.Function) bool { return m.Cores[g] }, 3)
+				paths, ok := enumFlatPaths(fg, 128)
 				if !ok {
 					s.Unknown(key+"/table", pos, "handler body is not a small decision DAG")
 					continue
@@ -441,7 +535,7 @@ func init() {
 				var tableBad []string
 				for mask := 0; mask < 8; mask++ {
 					val := map[atomKind]bool{aF: mask&1 != 0, aR: mask&2 != 0, aO: mask&4 != 0}
-					var feasible []cfgPath
+					var feasible []*flatPath
 					for _, p := range paths {
 						f := true
 						for _, a := range p.Conds {
@@ -464,8 +558,9 @@ func init() {
 						continue
 					}
 					p := feasible[0]
+					last := p.Nodes[len(p.Nodes)-1]
 					// returned value
-					res := p.Ret.Results[0]
+					res := p.Resolve(last, p.Ret.Results[0])
 					retE := false
 					switch x := res.(type) {
 					case *ssa.Const:
@@ -479,15 +574,16 @@ func init() {
 					}
 					// append on the path?
 					appended := false
-					for _, b := range p.Blocks {
-						for _, ins := range b.Instrs {
+					for _, n := range p.Nodes {
+						for _, ins := range n.Instrs {
 							if st, isS := ins.(*ssa.Store); isS {
-								if fa, isF := st.Addr.(*ssa.FieldAddr); isF && fieldElem(fa.X.Type(), fa.Field) == "Url:validationErrors" && fa.X == urlVal {
+								if fa, isF := st.Addr.(*ssa.FieldAddr); isF && fieldElem(fa.X.Type(), fa.Field) == "Url:validationErrors" && p.Resolve(n, fa.X) == urlVal {
 									// value must be append(load same field, e)
 									if call, isCall := st.Val.(*ssa.Call); isCall {
 										if bi, isB := call.Common().Value.(*ssa.Builtin); isB && bi.Name() == "append" {
 											appended = true
-											if !appendsExactly(call, eVal) {
+											nn := n
+											if !appendsExactlyR(call, eVal, func(v ssa.Value) ssa.Value { return p.Resolve(nn, v) }) {
 												tableOK = false
 												tableBad = append(tableBad, "what is recorded is not (only) the constructed error")
 											}
@@ -510,7 +606,7 @@ func init() {
 				if undec != "" {
 					s.Unknown(key+"/table", pos, undec)
 				} else {
-					s.Check(tableOK, key+"/table", pos, "8/8 flag combinations: returns e iff failure∨failOn, records iff reporting", strings.Join(tableBad, "; "))
+					s.Check(tableOK, key+"/table", pos, "8/8 flag combinations: returns e iff failure∨failOn, records iff reporting", strings.Join(uniq(tableBad), "; "))
 				}
 				// (3) sole effect
 				sum := e.Sum(h.Fn)
@@ -529,19 +625,7 @@ func init() {
 			}
 			sort.Slice(cs, func(i, j int) bool { return cs[i].Name() < cs[j].Name() })
 			for _, f := range cs {
-				ok := true
-				for _, b := range f.Blocks {
-					if r, isR := b.Instrs[len(b.Instrs)-1].(*ssa.Return); isR {
-						mi, isMI := r.Results[0].(*ssa.MakeInterface)
-						if !isMI {
-							ok = false
-							continue
-						}
-						if a, isA := mi.X.(*ssa.Alloc); !isA || namedOf(a.Type()) != "ValidationError" {
-							ok = false
-						}
-					}
-				}
+				_, ok := ctorAlloc(f)
 				s.Check(ok, "ctor/"+core.FuncName(f)+"/nonnil", c.P.Pos(f.Pos()), "every return is a freshly allocated *ValidationError", "may return something other than a fresh *ValidationError")
 			}
 		},
@@ -561,21 +645,7 @@ func init() {
 			}
 			sort.Slice(cs, func(i, j int) bool { return cs[i].Name() < cs[j].Name() })
 			for _, f := range cs {
-				stored := map[string]string{} // field -> param
-				for _, b := range f.Blocks {
-					for _, ins := range b.Instrs {
-						if st, ok := ins.(*ssa.Store); ok {
-							if fa, ok := st.Addr.(*ssa.FieldAddr); ok && namedOf(fa.X.Type()) == "ValidationError" {
-								fld := strings.TrimPrefix(fieldElem(fa.X.Type(), fa.Field), "ValidationError:")
-								if p, ok := st.Val.(*ssa.Parameter); ok {
-									stored[fld] = p.Name()
-								} else {
-									stored[fld] = "<" + st.Val.String() + ">"
-								}
-							}
-						}
-					}
-				}
+				stored := ctorFieldSources(f) // field -> param
 				for _, p := range f.Params {
 					want, ok := paramField[p.Name()]
 					key := "ctor/" + core.FuncName(f) + "/" + p.Name()
